@@ -5,19 +5,19 @@
 //
 // stdin: one case per line; stdout: one result line per case.
 //
-//   SEQ <type> <op>...          operation sequence on one fresh file
-//     C @name r d1..dr c          Create(shape, 0, compress c)
-//     W @name <ARR>               Write(array)
-//     S @name <ARR> k l1..lk      WriteSlice(array, loc)
-//     L @name                     Load()            (Slice == nil)
-//     LS @name k <SEL>*k          Load() with Slice; SEL = N | T a b s | X m v1..vm
-//     P / E / D / G @name         Shape / Exists / GetDatasets / GetGroups
-//   ARR = r B1..Br n v1..vn sl [start*r count*r step*r]  lr L1..Llr ln x1..xln
-//         base array (row-major bit patterns, hex), optional Slice of it, and
-//         the logical (dims, elems) the generator expects Unroll() to give
-//   SSALL amax bmax smin smax nmax      sliceSize over the whole box
-//   MH1ALL amax bmax smin smax nmax     makeHyperslab, one axis, over the box (+ nil)
-//   MH k <SEL>*k r d1..dr               makeHyperslab, one call
+//	SEQ <type> <op>...          operation sequence on one fresh file
+//	  C @name r d1..dr c          Create(shape, 0, compress c)
+//	  W @name <ARR>               Write(array)
+//	  S @name <ARR> k l1..lk      WriteSlice(array, loc)
+//	  L @name                     Load()            (Slice == nil)
+//	  LS @name k <SEL>*k          Load() with Slice; SEL = N | T a b s | X m v1..vm
+//	  P / E / D / G @name         Shape / Exists / GetDatasets / GetGroups
+//	ARR = r B1..Br n v1..vn sl [start*r count*r step*r]  lr L1..Llr ln x1..xln
+//	      base array (row-major bit patterns, hex), optional Slice of it, and
+//	      the logical (dims, elems) the generator expects Unroll() to give
+//	SSALL amax bmax smin smax nmax      sliceSize over the whole box
+//	MH1ALL amax bmax smin smax nmax     makeHyperslab, one axis, over the box (+ nil)
+//	MH k <SEL>*k r d1..dr               makeHyperslab, one call
 //
 // -conc N runs the concurrency stress (N goroutines, see conc.go).
 package main
